@@ -1,21 +1,38 @@
 import Driver.Util
 import Sqfs.Model.Quote
 import Sqfs.Model.QuoteOld
+import Sqfs.Model.QuoteLF
 import Sqfs.Spec.Quote
+import Sqfs.Spec.QuoteFs
 /-
 `sqfsmodel c16` — one operation per line:
 
   split <hexline>                                   → `ok <n> <tok>...` | `err quote` | `err esc`
+  splitsep <hexsep> <hexline>                       → the same with another separator set (sort files use ",")
+  possep <hexsep> <hexline>                         → `pos` with another separator set
+  esc <cur|fix> <hex>                               → `ok <hex>` | `err newline`      (`print_escaped` alone)
+  dev <devno>                                       → `<major> <minor> <makedev(major, minor)>`   (glibc macros)
+  mkdev <major> <minor>                             → `<makedev(major, minor)>`
   pos <hexline>                                     → `ok <dst>:<src> ...`   (cursor pairs at each token start)
   num <base> <vmax> <hex>                           → `ok <n>` | `err corrupted|overflow|oob`
   parse <keepUid> <forceUid> <keepGid> <forceGid> <hexcontent>
                                                     → `ents <k> {<name> <mode> <uid> <gid> <rdev> <extra|NULL>}* st=<status>`
-  desc <new|old> <root|NONE> <kind> <perm> <uid> <gid> <devno> <target> <ncomps> <comp>...
+  desc <cur|fix|old> <root|NONE> <kind> <perm> <uid> <gid> <devno> <target> <ncomps> <comp>...
                                                     → `ok <hexline>` | `err <why>`
   expect <root|NONE> <kind> <perm> <uid> <gid> <devno> <target> <ncomps> <comp>...
                                                     → `ents 1 …` in the format of `parse` (the specification), or `ents 0 st=ok`
-  dtree <new|old> <root|NONE> <n> {<depth> <kind> <perm> <uid> <gid> <devno> <target> <name>}*   (pre-order, depth of root = 0)
+  dtree <cur|fix|old> <root|NONE> <n> {<depth> <kind> <perm> <uid> <gid> <devno> <target> <name>}*   (pre-order, depth of root = 0)
                                                     → `ok <hex output>` | `err <why>`
+  etree <root|NONE> <n> {…as dtree…}                → `ents <k> …`: the specification `specTree` of the whole tree
+
+  fsbuild <keepUid> <forceUid> <keepGid> <forceGid> <defUid> <defGid> <defMode> <defMtime> <hexcontent>
+                                                    → `tree <n> {<depth> <name> <mode> <uid> <gid> <mtime> <linkcount> <implicit> <rdev> <extra|NULL>}* st=<status>`
+                                                      (`Sqfs.QuoteFs.buildFromFile`: the pack file through the real `fstree_add_generic`)
+  ntree <defUid> <defGid> <defMode> <defMtime> <root|NONE> <n> {…as dtree…}
+                                                    → the same dump of the specification `Sqfs.QuoteFs.normTree`
+
+`cur` = describe.c as in /repo (`Sqfs.Quote`), `fix` = with fixes/C16-describe-newline.patch (`Sqfs.QuoteLF`),
+`old` = the pinned snapshot before 96e45c1 (`Sqfs.QuoteOld`; only used to name a regression).  `new` is read as `cur`.
 -/
 namespace Driver.C16
 open Sqfs.Quote
@@ -34,7 +51,7 @@ def showHErr : HErr → String
   | .devNum => "devnum" | .glob => "glob"
 
 def showDErr : DErr → String
-  | .insaneName => "insane" | .path => "path" | .canon => "canon"
+  | .insaneName => "insane" | .path => "path" | .canon => "canon" | .newline => "newline"
 
 def showEntry (e : Entry) : String :=
   s!"{toHexTok e.name} {e.mode} {e.uid} {e.gid} {e.rdev} " ++ (match e.extra with | none => "NULL" | some x => toHexTok x)
@@ -79,8 +96,72 @@ def parseNodes : List String → Option (List (Nat × Sqfs.Path.Bytes × Node))
     pure ((← d.toNat?, name, n) :: rest)
   | _ => none
 
+def showFlat (x : Nat × List UInt8 × Sqfs.QuoteFs.FAttr) : String :=
+  let (depth, name, a) := x
+  s!" {depth} {toHexTok name} {a.mode} {a.uid} {a.gid} {a.mtime} {a.linkCount} {if a.implicit then 1 else 0} {a.rdev} " ++
+    (match a.extra with | none => "NULL" | some x => toHexTok x)
+
+def showFsErr : Sqfs.QuoteFs.FsErr → String
+  | .inval => "inval" | .range => "range" | .notdir => "notdir" | .exist => "exist" | .mlink => "mlink"
+
+def showBuild (r : Sqfs.QuoteFs.FNode × Option Sqfs.QuoteFs.BuildErr) : String :=
+  let st := match r.2 with
+    | none => "ok"
+    | some (.fs e) => "fs:" ++ showFsErr e
+    | some (.parse (.split e)) => "split:" ++ showSplitErr e
+    | some (.parse (.handle e)) => "h:" ++ showHErr e
+  let fl := r.1.flat 0
+  s!"tree {fl.length}" ++ String.join (fl.map showFlat) ++ " st=" ++ st
+
+def descNode (which : String) (ur : Option (List UInt8)) (cs : List (List UInt8)) (n : Node) : Except DErr (List UInt8) :=
+  if which = "old" then Sqfs.QuoteOld.describeNode ur cs n
+  else if which = "fix" then Sqfs.QuoteLF.describeNode ur cs n
+  else describeNode ur cs n
+
+def descTree (which : String) (ur : Option (List UInt8)) (t : Tree) : Except DErr (List UInt8) :=
+  if which = "old" then Sqfs.QuoteOld.describe ur t
+  else if which = "fix" then Sqfs.QuoteLF.describe ur t
+  else describe ur t
+
+def treeOf (cnt : String) (rest : List String) : Option Tree :=
+  match cnt.toNat?, parseNodes rest with
+  | some k, some nodes =>
+    if k ≠ nodes.length then none
+    else match nodes with
+      | (0, name, node) :: r =>
+        let (ch, left) := forest 0 r
+        if left ≠ [] then none else some (Tree.mk name node ch)
+      | _ => none
+  | _, _ => none
+
 def step (line : String) : String :=
   match words line with
+  | ["splitsep", hs, h] => match fromHex hs, fromHex h with
+    | some sep, some s => match splitLine sep s with
+      | .ok toks => s!"ok {toks.length}" ++ String.join (toks.map (fun t => " " ++ toHexTok t))
+      | .error e => "err " ++ showSplitErr e
+    | _, _ => "bad-op"
+  | ["possep", hs, h] => match fromHex hs, fromHex h with
+    | some sep, some s =>
+      let s' := skipSep sep s
+      match splitPos sep s.length s' 0 (s.length - s'.length) with
+      | .ok l => "ok" ++ String.join (l.map (fun p => s!" {p.1}:{p.2}"))
+      | .error e => "err " ++ showSplitErr e
+    | _, _ => "bad-op"
+  | ["esc", which, h] => match fromHex h with
+    | some s =>
+      if which = "fix" then
+        match Sqfs.QuoteLF.printEscaped s with
+        | .ok x => "ok " ++ toHexTok x
+        | .error e => "err " ++ showDErr e
+      else "ok " ++ toHexTok (printEscaped s)
+    | none => "bad-op"
+  | ["dev", d] => match d.toNat? with
+    | some d => s!"{devMajor d} {devMinor d} {makedev (devMajor d) (devMinor d)}"
+    | none => "bad-op"
+  | ["mkdev", a, b] => match a.toNat?, b.toNat? with
+    | some a, some b => s!"{makedev a b}"
+    | _, _ => "bad-op"
   | ["split", h] => match fromHex h with
     | some s => match splitLine packSep s with
       | .ok toks => s!"ok {toks.length}" ++ String.join (toks.map (fun t => " " ++ toHexTok t))
@@ -109,8 +190,7 @@ def step (line : String) : String :=
     | some ur, some n, some k, some cs =>
       if k ≠ cs.length then "bad-op"
       else
-        let r := if which = "old" then Sqfs.QuoteOld.describeNode ur cs n else describeNode ur cs n
-        match r with
+        match descNode which ur cs n with
         | .ok l => "ok " ++ toHexTok l
         | .error e => "err " ++ showDErr e
     | _, _, _, _ => "bad-op"
@@ -123,21 +203,27 @@ def step (line : String) : String :=
         | none => showParse ([], none)
     | _, _, _, _ => "bad-op"
   | "dtree" :: which :: root :: cnt :: rest =>
-    match optRoot root, cnt.toNat?, parseNodes rest with
-    | some ur, some k, some nodes =>
-      if k ≠ nodes.length then "bad-op"
-      else match nodes with
-        | (0, name, node) :: r =>
-          let (ch, left) := forest 0 r
-          if left ≠ [] then "bad-op"
-          else
-            let t := Tree.mk name node ch
-            let res := if which = "old" then Sqfs.QuoteOld.describe ur t else describe ur t
-            match res with
-            | .ok l => "ok " ++ toHexTok l
-            | .error e => "err " ++ showDErr e
-        | _ => "bad-op"
-    | _, _, _ => "bad-op"
+    match optRoot root, treeOf cnt rest with
+    | some ur, some t =>
+      match descTree which ur t with
+      | .ok l => "ok " ++ toHexTok l
+      | .error e => "err " ++ showDErr e
+    | _, _ => "bad-op"
+  | ["fsbuild", ku, fu, kg, fg, du, dg, dm, dt, h] =>
+    match fu.toNat?, fg.toNat?, du.toNat?, dg.toNat?, dm.toNat?, dt.toNat?, fromHex h with
+    | some fu, some fg, some du, some dg, some dm, some dt, some s =>
+      showBuild (Sqfs.QuoteFs.buildFromFile { keepUid := ku = "1", forceUid := fu, keepGid := kg = "1", forceGid := fg }
+        { uid := du, gid := dg, mode := dm, mtime := dt } s)
+    | _, _, _, _, _, _, _ => "bad-op"
+  | "ntree" :: du :: dg :: dm :: dt :: root :: cnt :: rest =>
+    match du.toNat?, dg.toNat?, dm.toNat?, dt.toNat?, optRoot root, treeOf cnt rest with
+    | some du, some dg, some dm, some dt, some ur, some t =>
+      showBuild (Sqfs.QuoteFs.normTree { uid := du, gid := dg, mode := dm, mtime := dt } ur [] t, none)
+    | _, _, _, _, _, _ => "bad-op"
+  | "etree" :: root :: cnt :: rest =>
+    match optRoot root, treeOf cnt rest with
+    | some ur, some t => showParse (specTree ur [] t, none)
+    | _, _ => "bad-op"
   | _ => "bad-op"
 
 def run (_args : List String) : IO Unit := do
